@@ -8,6 +8,7 @@ import subprocess
 from typing import Any
 
 from props import c22_pipe as pp
+from props import c22_pmov as pm
 from props import c22_rv as rv
 from props import c22_snip as sn
 from props import c22_tv as tv
@@ -94,7 +95,17 @@ META = {
         "to a position holding that label, and first-wins = last-wins there (dup_resolution_differs: not so with a duplicate); allocShared_nodup: the "
         "numbering of both loop lowerings (ONE counter per module) gives pairwise distinct labels for every number of functions and loops; "
         "allocPerFunction_dup(_general): a counter restarted per function defines a label twice as soon as two functions have a loop. The labels the "
-        "real lowerings define per function = Lean allocShared, the oracle's symbol table = Lean assemble (incl. rejected one-edit mutants of emitted units)."
+        "real lowerings define per function = Lean allocShared, the oracle's symbol table = Lean assemble (incl. rejected one-edit mutants of emitted units). "
+        "PARALLEL MOVES ALONE (leg P, c22_pmov): inside the pipeline riscv-lower-parallel-mov only sees what the func / loop lowering create (one float type per "
+        "function, never a designated free register: a float cycle there does not compile), so the pass is also run alone - like canonicalization in leg A - on "
+        "generated riscv.parallel_mov operations between allocated registers: chains, fan-outs, one / two cycles with trees hanging off them, self-moves, integer "
+        "and float registers in one op, a width (32 / 64) per source register mixed inside cycles, with and without designated free registers. The emitted "
+        "mv / fmv.s / fmv.d / xor (mnemonics and registers as xDSL prints them) run on the machine from register files in which every source holds a value of its "
+        "declared width (f32 NaN-boxed, f64 an arbitrary 64-bit pattern; fmv.s of a register that is not NaN-boxed yields the canonical NaN): every destination must "
+        "hold what its source held, no register other than destinations and designated free registers may change. "
+        "FLOAT COMPARISONS: arith.cmpf, all 16 predicates x both operand orders (f32; f64 is refused by the repaired lowering), on relational operand pairs - "
+        "lt / eq / gt / unordered each occur: equal patterns, +0 vs -0, equal infinities, adjacent values, NaN left / right / both - judged like the cmpi programs "
+        "after the arith lowering, allocation and early canonicalization against the Lean reference semantics (Sem.cmpfTable)."
     ),
     "technique": "Lean 4 proofs of rewrite rules over an RV32 BitVec machine + theorems over fold kernels translated from the Python source + a proved symbolic-execution translation validator run on every emitted loop-free function + differential snippets + stage-wise execution on an independent machine model",
     "level_note": (
@@ -110,7 +121,10 @@ META = {
         "arithmetic, IEEE rounding itself is not modelled in Lean); two NaNs are the same result; fast-math flags other than `contract` "
         "licence nothing here (no pattern uses them) and `contract` licences exactly product-into-sum/difference fusion; float programs are "
         "straight-line addf/subf/mulf/divf (arith.negf on f64 lowers to the single-precision fsgnjn.s - no double-precision op exists in "
-        "the dialect -, minimumf/maximumf lower to fmin/fmax with different NaN behaviour, cmpf/conversions: outside the generated family). "
+        "the dialect -, minimumf/maximumf lower to fmin/fmax with different NaN behaviour, conversions: outside the generated family; cmpf: one comparison per "
+        "program, f32 only - f64 operands are refused by the repaired lowering, the dialect has no feq.d/flt.d/fle.d -, observed like cmpi before parallel-move lowering). "
+        "Leg P is value level: fmv.d of a NaN-boxed f32 copies all 64 bits and is not an error here (the declared-width discipline of every emitted move is C20's); "
+        "two spellings of one register and the zero register in parallel moves are C20's as well; PassFailedException (float cycle without free register) = does not compile. "
         "Calls: a function that contains a call does not get through riscv-allocate-registers (the call excludes all a-/t-registers: "
         "OutOfRegisters = does not compile), so modules with a caller are executed on the unallocated form only (S1/E1, calls followed by "
         "the IR executor); jal to a name the unit does not define is left to the linker. "
@@ -144,7 +158,11 @@ META = {
         "program also through P (and Q for pinned ones / half of the rest), every float program and 15% of the others through E. "
         "Multi-function modules: 5 fixed (3 of them again with pinned s-registers) + 12 (thorough 1500) generated, 3 random + 2 fixed input vectors per "
         "function, every function an entry point; distinct = (module, entry, input). Labels: every emitted unit with a local label vs Lean assemble, "
-        "2 rejected mutants per multi-function unit, every loop lowering (cf conversion, labels pass before and after prologue insertion) vs Lean allocShared."
+        "2 rejected mutants per multi-function unit, every loop lowering (cf conversion, labels pass before and after prologue insertion) vs Lean allocShared. "
+        "Leg P: 110 fixed parallel moves (two- and three-cycles in every rotation with all 32/64 width patterns, with / without free register, float and integer, "
+        "two cycles sharing one free register, both register files in one op) + 400 (thorough 30000) generated x 3 register files; non-trivial = the pass emitted "
+        "at least one instruction, distinct by (moves, widths, free list). cmpf: 16 predicates x 2 operand orders on f32 + 5 with fastmath<fast> + 16 on f64, "
+        "15 relational + 3 random operand pairs each (finite pairs only under fastmath<fast>: nnan / ninf make the others poison)."
     ),
     "trusted_base": [
         "independent Python RV32 machine harness/props/c22_rv.py (integer part cross-checked against the Lean machine every run; the F/D part - "
@@ -719,6 +737,11 @@ def run_pipeline(ctx: core.Ctx) -> None:
     # wherever it runs in the pipeline), and the float programs (fast-math flags decide what may be contracted)
     progs += [dict(q, pin=True, pin_p=0.7) for q in pp.directed_programs() if "scf.for" in q["text"]]
     progs += pp.float_directed()
+    # float comparisons: all 16 predicates x both operand orders on f32 (+ fast-math flag on a sample); the inputs
+    # are relational (equal, +0/-0, adjacent, unordered): see pp.cmpf_inputs
+    progs += [pp.cmpf_program(pr, "f32", sw) for pr in pp.CMPF for sw in (False, True)]
+    progs += [pp.cmpf_program(pr, "f32", False, "fast") for pr in pp.CMPF[1::3]]
+    progs += [pp.cmpf_program(pr, "f64") for pr in pp.CMPF]
     # modules of several functions with loops: ONE assembler unit, every function an entry point (labels are
     # resolved over the whole unit, the way an assembler does)
     md = pp.multi_directed()
@@ -762,6 +785,9 @@ def run_pipeline(ctx: core.Ctx) -> None:
         entries: list[str] | None = None
         if isfloat:
             vecs = pp.float_inputs(rng, p, 6)
+        elif p.get("float_args"):
+            vecs = pp.cmpf_inputs(rng, p["arg_types"][0], finite_only="fastmath" in p["text"])
+            ctx.count("legB.cmpf.programs")
         elif "funcs" in p:
             vecs, entries = [], []
             for f in p["funcs"]:
@@ -946,6 +972,8 @@ def run_pipeline(ctx: core.Ctx) -> None:
             case["entry"], case["funcs"] = p.get("entry", "main"), p["funcs"]
         if "fspec" in p:
             case["fspec"] = p["fspec"]
+        elif p.get("float_args"):
+            case["float_args"] = True   # one operation: nothing to shrink
         elif reported < 6 and site != LOOP_SITE:
             reported += 1
             case = shrink_program(ctx, case, sname, sig)
@@ -1205,6 +1233,48 @@ def shrink_program(ctx: core.Ctx, case: dict[str, Any], stage: str, sig: str) ->
 
 
 # ================================================================================================
+# leg P: riscv-lower-parallel-mov alone on generated parallel moves (see c22_pmov)
+# ================================================================================================
+
+def run_pmov(ctx: core.Ctx) -> None:
+    rng = ctx.rng
+    cases = pm.directed() + [pm.generate(rng) for _ in range(400 if ctx.tier == "quick" else 30000)]
+    for case in cases:
+        if ctx.time_left() < 30:
+            ctx.count("legP.skipped_for_time")
+            continue
+        vecs = pm.vectors(rng, case, 3)
+        kind, low, bad = pm.evaluate(case, vecs)
+        ctx.ev()
+        if kind == "nocompile":
+            ctx.count("legP.does_not_compile." + low[0] + "." + str(low[1]).split(":")[0][:48].replace(" ", "_"))
+            continue
+        widths = {w for s, _, w in case["moves"] if pm.is_float(s)}
+        ctx.count("legP.lowered")
+        if low[0] == "ok" and low[1]:
+            ctx.nt(("P", json.dumps(case, sort_keys=True)))
+            if len(widths) == 2 and case["free"]:
+                ctx.count("legP.mixed_float_widths_with_free_register")
+            if any(m == "xor" for m, _ in low[1]):
+                ctx.count("legP.xor_swap")
+        if bad is None:
+            continue
+        sig, desc, obs, regs = bad
+
+        def still(mv: list[Any], regs: dict[str, int] = regs, sig: str = sig) -> bool:
+            k, _, b = pm.evaluate(dict(case, moves=mv), [regs])
+            return k == "bad" and b[0] == sig
+        small = dict(case, moves=core.shrink_list(case["moves"], still, max_steps=60))
+        kind2, low2, bad2 = pm.evaluate(small, [regs])
+        if kind2 != "bad":
+            small, low2, bad2 = case, low, bad
+        ctx.fail(pm.SITE, bad2[0], dict(small, regs={r: regs[r] for r in pm.IPOOL + pm.FPOOL}), pm.text(small) + ": " + bad2[1],
+                 {"emitted": [rv.fmt(i) for i in low2[1]] if low2[0] == "ok" else low2[1], "observation": bad2[2]},
+                 {"simultaneous_assignment": {d: f"{regs[s_]:#x}" for s_, d, _ in small["moves"]}})
+    ctx.sample(cases[-1])
+
+
+# ================================================================================================
 # leg C: py_operation kernels of the immediate-shift ops (rv32 and rv64)
 # ================================================================================================
 
@@ -1345,14 +1415,15 @@ def run(ctx: core.Ctx) -> None:
     ctx.extra["lean_build_audit_s"] = round(time.time() - t0, 1)
     ctx.exhaustive = False
     secs: dict[str, float] = {}
-    for name, leg in (("C", run_shift_kernels), ("A", run_snippets), ("A-cf", run_cf_snippets), ("B", run_pipeline)):
+    for name, leg in (("C", run_shift_kernels), ("A", run_snippets), ("A-cf", run_cf_snippets), ("P", run_pmov), ("B", run_pipeline)):
         t1 = time.time()
         leg(ctx)
         secs[name] = round(time.time() - t1, 1)
     ctx.extra["leg_seconds"] = secs
     t = ctx.budget_s
     ctx.extra["legs"] = {"A": "canonicalization snippets", "B": "pipeline programs, stage-wise", "C": "fold kernels rv32/rv64/riscv_cf/pattern guards: oracle + translated definitions (driver_gen)",
-                         "B-tv": "proved validator on every emitted loop-free function"}
+                         "B-tv": "proved validator on every emitted loop-free function",
+                         "P": "riscv-lower-parallel-mov alone on generated parallel moves (mixed widths, free registers)"}
     ctx.extra["budget_s"] = t
 
 
@@ -1430,6 +1501,23 @@ def replay(ctx: core.Ctx, body: dict) -> int:
                             print(f"    if the {pol} definition of a label won: @{entry} returns {got}; the source returns {want}")
                         break
             print(f"property FAILS on this case at {bad[0]}: {bad[1]}: {bad[3]}")
+            return 1
+        print("property holds on this case")
+        return 0
+    if leg == "P":
+        regs = case["regs"]
+        print(pm.text(case))
+        kind, low, bad = pm.evaluate(case, [regs])
+        if low[0] == "ok":
+            print("emitted by riscv-lower-parallel-mov:")
+            for i in low[1]:
+                print("    " + rv.fmt(i))
+        else:
+            print("lowering:", low)
+        for s_, d, w in case["moves"]:
+            print(f"    {d} must receive the {w}-bit value of {s_}: {regs[s_]:#x}")
+        if bad:
+            print(f"property FAILS on this case: {bad[0]}: {bad[1]}")
             return 1
         print("property holds on this case")
         return 0
